@@ -15,7 +15,8 @@ LEVEL_TEXT = ("Symbolic execution of the real __repr__/__str__ code with numeric
               "branch of the printing code (e.g. a truthiness test that hides a zero coordinate) is a solver-checked fork. Pairs of objects are printed one "
               "after the other in the same process: equal printed text must imply equality (hash() is an uninterpreted function, so a hash-keyed memo is a "
               "fork on a hash collision; replay tries CPython's real numeric-hash collisions). The real float/int formatting is exercised by one concrete "
-              "replay per obligation on the un-instrumented interpreter.")
+              "replay per obligation on the un-instrumented interpreter, and by 12 assignments of number spellings that are easy to print wrongly (trailing zeros, exponent "
+              "notation, 17-digit mantissas, the smallest subnormal) tried once per job and on every failing round trip.")
 BOUNDS = {"quick": {"objects": "the C12 pair list (26 base objects x one-difference variants, all 15 constructors, points, derivative objects) with symbolic parameters",
                     "outside": "float formatting beyond Python's own repr round-trip guarantee; full injectivity of printing for trees larger than the list "
                     "(printing is a structural recursion; node-level distinctness is what is checked)"}}
